@@ -118,6 +118,17 @@ class Shape:
         return root, subs
 
 
+def ctx_free_viol(viol, by_id):
+    out, seen = [], set()
+    for v in viol:
+        s = by_id.get(v[2], {})
+        if s.get("mode") == "free" and (v[1], v[2]) not in seen and isinstance(v[4], list) and len(v[4]) > 1 \
+                and v[4][1] == "free-concurrent":
+            seen.add((v[1], v[2]))
+            out.append({"inv": v[1], "shape": s.get("shape"), "threads": s.get("threads"), "detail": v[4]})
+    return out
+
+
 def unq(x):
     return x.strip().strip('"')
 
@@ -239,8 +250,10 @@ def _model_check(ctx, quick, names, dead, live, dead_open, stale_open, mc, must_
     # model is checked against FoldStateAsIs (= FoldState wherever no aggregator lacks a critical descendant), which
     # shows that the deviation is the only one; FoldInv proper is then expected to fail on the remaining shapes.
     SEQ = ["TypeOK", "ErrorNotInventedEver", "AdapterFresh"] + ERR
+    seq_states = TASK_STATES[:4] if quick else TASK_STATES
     if dead_open:
-        must_hold(mc(names, ["state"], 1, 0, SEQ + ["FoldStateAsIsInv"], view=False), "sequential state, deviation taken as given")
+        must_hold(mc(names, ["state"], 1, 0, SEQ + ["FoldStateAsIsInv"], view=False, task_states=seq_states),
+                  "sequential state, deviation taken as given")
         rd = mc(dead, ["state"], 1, 0, ["FoldStateInv"])
         if rd.violated:
             add_cex(rd, 1, "model-counterexample:FoldInv:" + DEV_DEAD)
@@ -248,17 +261,17 @@ def _model_check(ctx, quick, names, dead, live, dead_open, stale_open, mc, must_
         else:
             ctx.observations.append("deviation %s is open but the model does not violate FoldInv" % DEV_DEAD)
     else:
-        must_hold(mc(names, ["state"], 1, 0, SEQ + ["FoldStateInv"], view=False), "sequential state")
+        must_hold(mc(names, ["state"], 1, 0, SEQ + ["FoldStateInv"], view=False, task_states=seq_states), "sequential state")
     # 1c sequential, status
     must_hold(mc(names, ["status"], 1, 0, ["TypeOK", "FoldStatusInv", "AdapterFresh"], view=False,
                  statuses=REAL_STATUSES if quick else ALL_STATUSES), "sequential status")
     # 1d order independence of two updates of different leaves, from every reachable quiescent state
-    oi_shapes = ["S03", "S05", "S10"] if quick else [s for s in names if s != "S12"]
+    oi_shapes = ["S03", "S10"] if quick else [s for s in names if s != "S12"]
     oi_states = ["CONFIGURED", "RUNNING", "ERROR"] if quick else TASK_STATES
     must_hold(mc(oi_shapes, ["state"], 1, 0, ["OrderIndependent"], task_states=oi_states), "order independence (state)")
     must_hold(mc(oi_shapes, ["status"], 1, 0, ["OrderIndependent"]), "order independence (status)")
     # 1e two concurrent updates, state
-    con_shapes = ["S01", "S03", "S05", "S10"] if quick else live
+    con_shapes = ["S03", "S10"] if quick else live
     con_states = ["CONFIGURED", "RUNNING", "ERROR"] if quick else TASK_STATES
     if stale_open:
         must_hold(mc(con_shapes, ["state"], 2, 1, ["ErrorNotLost"], task_states=con_states), "concurrent state: ErrorNotLost")
@@ -319,6 +332,19 @@ def _generate(ctx, quick, names, shapes, scenarios, mk_scenario, rng, dead_fixed
             sid += 1
             shp_name = b[0][2]["shape"]
             scenarios.append(mk_scenario(sid, shp_name, beh_to_steps(b), rng if rng.random() < 0.6 else None, "generated:" + tag))
+    # the documented example (DESIGN.md): root{a{t,t critical}, b{non-critical}}, every task CONFIGURED, one update at a time
+    if "S04" in shapes:
+        shp = shapes["S04"]
+        steps = []
+        for lf in [x for x in range(1, shp.n + 1) if shp.is_leaf(x)]:
+            steps.append({"a": "Begin", "t": 1, "leaf": lf, "kind": "state", "v": "CONFIGURED"})
+            if shp.crit[lf - 1]:
+                x = shp.parent[lf - 1]
+                while x != 0:
+                    steps += [{"a": "MergeAt", "t": 1}, {"a": "ReadCache", "t": 1}]
+                    x = shp.parent[x - 1]
+                steps.append({"a": "Deliver", "t": 1})
+        scenarios.append(mk_scenario(6, "S04", steps, None, "directed:all-tasks-CONFIGURED"))
     # free-running runs: one goroutine per leaf
     nfree = 30 if quick else 400
     free = []
@@ -426,6 +452,11 @@ def _replay_and_validate(ctx, scenarios, predicted, adapter_sid, dead_fixed, tru
         ctx.add_violation({"inv": inv, "cls": cls, "kind": kind, "scn": scn, "line": line, "shape": s.get("shape"),
                            "mode": s.get("mode"), "origin": s.get("origin", "?"), "detail": det},
                           replay_obj={"scenario": s, "trace": trace_of(scn)})
+    fr = [v for v in ctx_free_viol(viol, by_id)]
+    if fr:
+        ctx.extra["free_run_violations"] = fr[:5]
+        ctx.observations.append("%d free-running concurrent run(s) (no forced schedule) ended with a cache that is not the fold of "
+                                "the leaves, e.g. %s" % (len(fr), json.dumps(fr[0])[:300]))
     # every model counterexample must reproduce on the real code
     for (psid, inv, dev) in predicted:
         if (psid, inv) not in flagged and not ctx.violations:
